@@ -93,7 +93,21 @@ let handle (toks : string list) : string =
        | None ->
          if plain <> "E" && tok_of_fast exp_fast <> fast then Printf.sprintf "diff fast model=%s impl=%s" (tok_of_fast exp_fast) fast
          else match parse_shape t with
-           | None -> if fast <> "-" then "diff fast_without_shape" else "ok"
+           | None ->
+             if fast <> "-" then "diff fast_without_shape" else
+             (* some part is written literal-first (20 <= x): never a shortcut shape; the general evaluator
+                decides, and the model reads the part as the comparison with the operands swapped *)
+             (match parse_shape_any t with
+              | None -> "ok"
+              | Some s ->
+                (match status_of_shape s with
+                 | 0 ->
+                   let g = b01 (eval_general s r) in
+                   if g <> paren then Printf.sprintf "diff general_literal_first model=%s impl=%s" g paren
+                   else if g <> plain then Printf.sprintf "diff evaluate_literal_first model=%s impl=%s" g plain
+                   else "ok nt"
+                 | 1 -> if plain = "E" && paren = "E" then "ok" else Printf.sprintf "diff compiles_literal_first model=no impl=%s/%s" plain paren
+                 | _ -> "ok"))
            | Some s ->
              (match status_of_shape s with
               | 0 ->
@@ -109,11 +123,11 @@ let handle (toks : string list) : string =
       let t = bytes_of_hex text in
       let r = row_of_toks rowt in
       if a <> b then Printf.sprintf "chk decision_differs_%s plain=%s paren=%s" site a b else
-      (match parse_shape t with
+      (match (match parse_shape t with Some s -> Some (s, true) | None -> (match parse_shape_any t with Some s -> Some (s, false) | None -> None)) with
        | None -> "bad sql predicate outside the shape language"
-       | Some s ->
+       | Some (s, shortcut_shape) ->
          (match status_of_shape s with
-          | 0 -> let g = b01 (evaluate s r) in
+          | 0 -> let g = b01 (if shortcut_shape then evaluate s r else eval_general s r) in
                  if g = a then "ok nt" else Printf.sprintf "diff %s model=%s impl=%s" site g a
           | _ -> "ok"))
   | [("K" :: form :: text :: rowt); [seq; nt; nf; np]] ->
